@@ -247,6 +247,17 @@ def body_substring(ctx, case):
     al = ctx.must("substring_alignment_raises", sa.levenshtein_alignment_substring, list(a), list(b))
     ctx.check(typed_eq_list(project(al, 0), a) and typed_eq_list(project(al, 1), b), "substring_alignment_projection",
               lambda: "a=%r b=%r alignment=%r" % (a, b, al))
+    # the documented empty_symbol option only changes how a gap is written (all three alignment functions)
+    gap = ("<gap>",)
+    for fname in ("levenshtein_alignment_substring", "levenshtein_alignment", "levenshtein_alignment_path"):
+        unmarked = ctx.must("alignment_raises", getattr(sa, fname), list(a), list(b))
+        marked = ctx.must("alignment_raises", getattr(sa, fname), list(a), list(b), 1, 1, 1, gap)
+        if fname == "levenshtein_alignment_path":
+            ctx.check(list(marked) == list(unmarked), "empty_symbol_changes_the_alignment", lambda: "%s: %r vs %r" % (fname, marked, unmarked))
+        else:
+            want_marked = [tuple(gap if x is None else x for x in pair) for pair in unmarked]
+            ctx.check([tuple(pair) for pair in marked] == want_marked, "empty_symbol_changes_the_alignment",
+                      lambda: "%s with empty_symbol: %r, default %r; a=%r b=%r" % (fname, marked, unmarked, a, b))
     costs = set()
     for opt, side in opts.items():
         core = strip_free(al, side)
